@@ -1042,3 +1042,71 @@ pub fn body_sender(cl: Option<u64>, explicit_te: bool, use_call: bool) -> Result
         }
     }
 }
+
+/// Build the flow for `cfg`, send head and (minimal) body with big buffers, giving up on
+/// Await100 at once. Returns the flow ready to receive the response.
+pub fn fast_to_recv(cfg: &ReqCfg) -> Result<F<RecvResponse>, String> {
+    let mut f = build_flow(cfg).map_err(|e| format!("Flow::new: {:?}", e))?.proceed();
+    write_head_big(&mut f).map_err(|e| format!("head: {:?}", e))?;
+    if !f.can_proceed() {
+        return Err("head not complete after big writes".into());
+    }
+    let body: Vec<u8> = match cfg.declared_len() {
+        Some(n) => vec![b'x'; n.min(1 << 20) as usize],
+        None => vec![],
+    };
+    to_recv_response(f, &body)
+}
+
+/// Feed a complete response (head + body + optional trailing bytes) with big buffers.
+/// Returns the state reached (Redirect or Cleanup), the response and how much was consumed.
+pub enum End {
+    Redirect(F<Redirect>),
+    Cleanup(F<Cleanup>),
+}
+
+pub fn fast_response(mut f: F<RecvResponse>, stream: &[u8]) -> Result<(End, RespObs, usize, Vec<u8>), String> {
+    let mut consumed = 0usize;
+    let mut obs = None;
+    for _ in 0..3 {
+        let (n, r) = f.try_response(&stream[consumed..]).map_err(|e| format!("try_response: {:?}", e))?;
+        consumed += n;
+        if let Some(r) = r {
+            obs = Some(observe_response(&r));
+            break;
+        }
+        if n == 0 {
+            break;
+        }
+    }
+    let obs = obs.ok_or("no response")?;
+    let mut body = Vec::new();
+    match f.proceed().ok_or("RecvResponse::proceed None")? {
+        RecvResponseResult::Redirect(r) => Ok((End::Redirect(r), obs, consumed, body)),
+        RecvResponseResult::Cleanup(c) => Ok((End::Cleanup(c), obs, consumed, body)),
+        RecvResponseResult::RecvBody(mut b) => {
+            let close = b.body_mode() == BodyMode::CloseDelimited;
+            let mut buf = vec![0u8; BIG];
+            let mut guard = 0;
+            loop {
+                guard += 1;
+                if guard > 10_000 {
+                    return Err("body read does not finish".into());
+                }
+                if (b.can_proceed() && !close) || consumed >= stream.len() {
+                    break;
+                }
+                let (c, p) = b.read(&stream[consumed..], &mut buf).map_err(|e| format!("read: {:?}", e))?;
+                consumed += c;
+                body.extend_from_slice(&buf[..p]);
+                if c == 0 && p == 0 {
+                    break;
+                }
+            }
+            match b.proceed().ok_or("RecvBody::proceed None")? {
+                RecvBodyResult::Redirect(r) => Ok((End::Redirect(r), obs, consumed, body)),
+                RecvBodyResult::Cleanup(c) => Ok((End::Cleanup(c), obs, consumed, body)),
+            }
+        }
+    }
+}
